@@ -10,3 +10,39 @@ class crc32:
     types = dict(data="bytes")
     returns = "int"
     ensures = lambda data, result: result == S.crc32(data) and 0 <= result < 2 ** 32
+
+
+# ---- random (utils.gen_data, C20): only ranges and kinds are assumed, nothing about the distribution
+@external("random.randint")
+class random_randint:
+    params = ["a", "b"]
+    types = dict(a="int", b="int")
+    returns = "int"
+    raises = [R("ValueError", when=lambda a, b: a > b)]
+    ensures = lambda a, b, result: a <= result and result <= b
+
+
+@external("random.random")
+class random_random:
+    params = []
+    types = dict()
+    returns = "float"
+    ensures = lambda result: True
+
+
+@external("random.getrandbits")
+class random_getrandbits:
+    params = ["k"]
+    types = dict(k="int")
+    returns = "int"
+    requires = lambda k: k >= 0
+    ensures = lambda k, result: 0 <= result and result < 2 ** k
+
+
+@external("random.choices")
+class random_choices:
+    params = ["population", "k"]
+    types = dict(population="str", k="int")
+    returns = "list"
+    requires = lambda population, k: k >= 0 and len(population) >= 1
+    ensures = lambda population, k, result: len(result) == k and S.ALL_STRS(result, 0)
